@@ -134,6 +134,22 @@ def advValid : List RAIdx → Shape → Prop
       ∃ z : Int, a.get j = .i z ∧ (if nn then 0 ≤ z else -(n : Int) ≤ z) ∧ z < n) ∧ advValid ixs ns
   | _, _ => False
 
+/-- the part of `advValid` that does not depend on the index arrays' VALUES -/
+def advValidAffine : List RAIdx → Shape → Prop
+  | [], [] => True
+  | .int k :: ixs, n :: ns => (-(n : Int) ≤ k ∧ k < n) ∧ advValidAffine ixs ns
+  | .slice _ _ step :: ixs, _ :: ns => step ≠ 0 ∧ advValidAffine ixs ns
+  | .arr _ _ :: ixs, _ :: ns => advValidAffine ixs ns
+  | _, _ => False
+
+/-- the components of an evaluated index vector that come from integers and
+    slices are integers within the axis -/
+def affinePartsOK : List RAIdx → Shape → List Val → Prop
+  | [], [], [] => True
+  | .arr _ _ :: ixs, _ :: ns, _ :: vs => affinePartsOK ixs ns vs
+  | _ :: ixs, n :: ns, v :: vs => (∃ z : Nat, v = .i z ∧ z < n) ∧ affinePartsOK ixs ns vs
+  | _, _, _ => False
+
 end Lower
 
 namespace Spec
